@@ -1,10 +1,21 @@
-//! C21 — the RESP decoder is safe on arbitrary bytes (work in progress: child + probe)
+//! C21 — the RESP decoder is safe on arbitrary bytes.
+//! The real `RespValue::decode` runs in a **child process** (same binary, `--child decode`)
+//! on a thread with the 2 MiB stack of a tokio worker, under a counting global allocator:
+//! a panic is caught and reported, an allocator abort or a stack overflow kills the child
+//! and is seen by the parent as the death of the child on that input.  Outcome class, value,
+//! remaining buffer are compared with the Lean model (`SgModel.Resp.decode`), the measured
+//! peak allocation with the model's meter, and the specification `specSafe` is evaluated on
+//! the implementation's own observations.
 #[path = "resp_common/mod.rs"]
 mod resp_common;
 use resp_common::*;
+use bytes::BytesMut;
+use samyama::protocol::resp::{RespError, RespValue};
+use serde_json::json;
 use std::alloc::{GlobalAlloc, Layout, System};
 use std::io::{BufRead, Write};
 use std::sync::atomic::{AtomicUsize, Ordering};
+use vharness::{driver, Args, Known, Report, Rng};
 
 struct Counting;
 static CUR: AtomicUsize = AtomicUsize::new(0);
@@ -34,74 +45,294 @@ unsafe impl GlobalAlloc for Counting {
 #[global_allocator]
 static A: Counting = Counting;
 
-/// child: one hex input per line -> `<class> <peak-bytes> <rest-hex> <value|->`;
-/// the decode runs on a thread with the 2 MiB stack of a tokio worker
+/// child: one hex input per line -> `<class> <peak-bytes> <rest-hex> <value|->`.
+/// The whole loop runs on a thread with a 2 MiB stack (tokio's default worker stack).
 fn child_decode() {
     silence_panics();
-    let stdin = std::io::stdin();
-    let mut out = std::io::stdout();
-    for line in stdin.lock().lines() {
-        let line = line.unwrap();
-        let input = unhex(line.trim()).expect("hex");
-        let h = std::thread::Builder::new().stack_size(2 * 1024 * 1024).spawn(move || {
+    let h = std::thread::Builder::new().stack_size(2 * 1024 * 1024).spawn(|| {
+        let stdin = std::io::stdin();
+        let mut out = std::io::stdout();
+        for line in stdin.lock().lines() {
+            let line = line.unwrap();
+            let input = unhex(line.trim()).expect("hex");
+            let mut buffer = BytesMut::from(&input[..]);
             let base = CUR.load(Ordering::Relaxed);
             PEAK.store(base, Ordering::Relaxed);
-            let (c, v, rest) = real_decode_once(&input);
+            let r = std::panic::catch_unwind(std::panic::AssertUnwindSafe(|| RespValue::decode(&mut buffer)));
             let peak = PEAK.load(Ordering::Relaxed).saturating_sub(base);
-            (c, v, rest, peak)
-        }).unwrap();
-        let (c, v, rest, peak) = h.join().expect("decode thread");
-        writeln!(out, "{} {} {} {}", c, peak, hexd(&rest), if v.is_empty() { "-".to_string() } else { v }).unwrap();
-        out.flush().unwrap();
+            let (c, v) = match &r {
+                Ok(Ok(Some(v))) => ('V', vtext(v)),
+                Ok(Ok(None)) | Ok(Err(RespError::Incomplete)) => ('M', "-".to_string()),
+                Ok(Err(_)) => ('X', "-".to_string()),
+                Err(_) => ('P', "-".to_string()),
+            };
+            writeln!(out, "{} {} {} {}", c, peak, hexd(&buffer), v).unwrap();
+            out.flush().unwrap();
+            // a deeply nested value is dropped recursively too: do it inside the guarded region
+            let _ = std::panic::catch_unwind(std::panic::AssertUnwindSafe(move || drop(r)));
+        }
+    }).unwrap();
+    h.join().expect("decode thread");
+}
+
+#[derive(Clone, Debug)]
+struct Obs { class: char, peak: u64, rest: String, val: String }
+
+/// run all inputs through child processes; an input the child dies on gets class 'A'
+fn observe(inputs: &[Vec<u8>], rep: &mut Report) -> Vec<Obs> {
+    let n_kids = 8usize.min(inputs.len().max(1));
+    let chunk = (inputs.len() + n_kids - 1) / n_kids.max(1);
+    let mut out: Vec<Vec<Obs>> = vec![];
+    let mut deaths = 0u64;
+    std::thread::scope(|sc| {
+        let hs: Vec<_> = inputs.chunks(chunk.max(1)).map(|part| sc.spawn(move || {
+            let mut res = Vec::with_capacity(part.len());
+            let mut died = 0u64;
+            let mut kid = Kid::spawn("decode");
+            for inp in part {
+                match kid.ask(&hexd(inp)) {
+                    Ok(line) => {
+                        let f: Vec<&str> = line.split(' ').collect();
+                        res.push(Obs { class: f[0].chars().next().unwrap_or('?'), peak: f[1].parse().unwrap_or(u64::MAX), rest: f[2].to_string(), val: f[3].to_string() });
+                    }
+                    Err(status) => {
+                        died += 1;
+                        res.push(Obs { class: 'A', peak: u64::MAX, rest: status, val: "-".into() });
+                        kid = Kid::spawn("decode");
+                    }
+                }
+            }
+            (res, died)
+        })).collect();
+        for h in hs { let (r, d) = h.join().expect("observer thread"); out.push(r); deaths += d; }
+    });
+    rep.count_n("child_process_deaths", deaths);
+    out.into_iter().flatten().collect()
+}
+
+/// Appendix B: a length field outside [-1, remaining]
+fn bad_length_field(b: &[u8]) -> Option<&'static str> {
+    let mut i = 0;
+    while i < b.len() {
+        if b[i] == b'$' || b[i] == b'*' {
+            if let Some(e) = b[i..].windows(2).position(|w| w == b"\r\n") {
+                let txt = std::str::from_utf8(&b[i + 1..i + e]).unwrap_or("x");
+                if let Ok(n) = txt.parse::<i128>() {
+                    let remaining = (b.len() - (i + e + 2)) as i128;
+                    if n < -1 { return Some(if b[i] == b'$' { "negative-bulk-length" } else { "negative-array-length" }); }
+                    if n > remaining { return Some(if b[i] == b'$' { "bulk-length-beyond-input" } else { "array-length-beyond-input" }); }
+                }
+                i += e + 2;
+                continue;
+            }
+        }
+        i += 1;
     }
+    None
+}
+
+fn nest_depth(b: &[u8]) -> usize {
+    // leading run of `*<digits>\r\n` headers
+    let mut i = 0; let mut d = 0;
+    while i < b.len() && b[i] == b'*' {
+        match b[i..].windows(2).position(|w| w == b"\r\n") { Some(e) => { i += e + 2; d += 1; } None => break }
+    }
+    d
 }
 
 fn main() {
     let argv: Vec<String> = std::env::args().collect();
     if argv.get(1).map(|s| s.as_str()) == Some("--child") {
-        match argv.get(2).map(|s| s.as_str()) {
-            Some("decode") => child_decode(),
-            _ => std::process::exit(2),
-        }
+        match argv.get(2).map(|s| s.as_str()) { Some("decode") => child_decode(), _ => std::process::exit(2) }
         return;
     }
-    if argv.get(1).map(|s| s.as_str()) == Some("--probe") {
-        silence_panics();
-        let mut inputs: Vec<(String, Vec<u8>)> = vec![
-            ("bulk -2".into(), b"$-2\r\n".to_vec()),
-            ("bulk -3".into(), b"$-3\r\n".to_vec()),
-            ("bulk partial".into(), b"$5\r\nhel".to_vec()),
-            ("array partial".into(), b"*2\r\n:1\r\n".to_vec()),
-            ("array 1e10".into(), b"*9999999999\r\n".to_vec()),
-            ("array usize max".into(), b"*18446744073709551615\r\n".to_vec()),
-            ("inline a a a".into(), b"a a a a a a a a a a a a a a a a\r\n".to_vec()),
-            ("inline one".into(), b"a\r\n".to_vec()),
-            ("nulls".into(), b"*4\r\n_\r\n_\r\n_\r\n_\r\n".to_vec()),
-        ];
-        for depth in [100usize, 129, 1000, 20000, 200000] {
-            let mut v = Vec::new();
-            for _ in 0..depth { v.extend_from_slice(b"*1\r\n"); }
-            inputs.push((format!("nest {}", depth), v));
+    let args = Args::parse();
+    silence_panics();
+    let known = Known::load(&args.known, "C21");
+    let mut rep = Report::new(
+        "C21",
+        "byte strings: all strings up to length 4 (quick) / 5 (thorough) over {+ - : $ * _ 0 1 2 9 CR LF a \"}, valid frames with a length \
+         field replaced by -2, -1, 0, 2^31, 2^63-1, 2^63, 10^30, 9999999999, usize::MAX, truncations, nesting 100 … 200000 deep, big flat arrays, \
+         inline lines with many tokens, random bytes; non-trivial = the input holds a length field outside [-1, remaining] or nests deeper than 8; \
+         distinct = distinct input",
+        &args.replays,
+        args.seed,
+    );
+    let exe = args.driver_exe("drv_resp");
+    let mut rng = Rng::new(args.seed);
+    let mut inputs: Vec<Vec<u8>> = vec![];
+
+    let mut n_corpus = 0;
+    for (k, rest) in corpus_lines(&args.corpus.join("C21"), &args.replay) {
+        match k.as_str() {
+            "bytes" | "raw" => if let Some(b) = unhex(rest.split_whitespace().next().unwrap_or("")) { inputs.push(b); n_corpus += 1; },
+            // nest <depth> <hex of the repeated header> : kept short in the corpus file
+            "nest" => {
+                let f: Vec<&str> = rest.split_whitespace().collect();
+                if let (Some(d), Some(h)) = (f.first().and_then(|x| x.parse::<usize>().ok()), f.get(1).and_then(|x| unhex(x))) {
+                    inputs.push(h.iter().cycle().take(h.len() * d).cloned().collect()); n_corpus += 1;
+                }
+            }
+            _ => {}
         }
-        for (name, inp) in inputs {
-            let mut kid = Kid::spawn("decode");
-            let r = kid.ask(&hexd(&inp));
-            let r = match r { Ok(s) => s.chars().take(100).collect::<String>(), Err(e) => format!("CHILD DIED: {}", e) };
-            println!("{:20} len={:7} -> {}", name, inp.len(), r);
-        }
-        let (evs, buf) = real_feed(&[b"$5\r\nhel".to_vec(), b"lo\r\n".to_vec()]);
-        println!("feed [$5 hel | lo] -> {} buf={}", events_text(&evs), hexd(&buf));
-        let (evs, buf) = real_feed(&[b"*2\r\n$3\r\nfoo\r\n".to_vec(), b"$3\r\nbar\r\n".to_vec()]);
-        println!("feed [*2 foo | bar] -> {} buf={}", events_text(&evs), hexd(&buf));
-        for v in [samyama::protocol::resp::RespValue::Error("ERR unknown command 'X\r\n+OK'".into()),
-                  samyama::protocol::resp::RespValue::SimpleString("a\nb\rc".into())] {
-            let mut b = Vec::new();
-            v.encode(&mut b).unwrap();
-            let (evs, buf) = real_feed(&[b.clone()]);
-            println!("encode {:?} -> {:?}; decodes as {} buf={}", v, String::from_utf8_lossy(&b), events_text(&evs), hexd(&buf));
-        }
-        return;
     }
-    eprintln!("c21: not finished");
-    std::process::exit(2);
+    rep.count_n("corpus_cases", n_corpus);
+
+    if args.replay.is_none() {
+        // exhaustive short strings
+        let alpha: &[u8] = b"+-:$*_0129\r\na\"";
+        let maxlen = if args.thorough() { 5 } else { 4 };
+        let mut n_ex = 0u64;
+        for len in 0..=maxlen {
+            let total = alpha.len().pow(len as u32);
+            for mut x in 0..total {
+                let mut s = Vec::with_capacity(len);
+                for _ in 0..len { s.push(alpha[x % alpha.len()]); x /= alpha.len(); }
+                inputs.push(s); n_ex += 1;
+            }
+        }
+        rep.exhaustive = true;
+        rep.exhaustive_note = format!("all {} byte strings of length <= {} over the 14-letter alphabet {{+ - : $ * _ 0 1 2 9 CR LF a \"}}; the remaining cases (mutated frames, deep nesting, random bytes) are not exhaustive", n_ex, maxlen);
+
+        // length-field mutations of valid frames
+        let lens = ["-2", "-1", "0", "-3", "-9223372036854775808", "2147483648", "9223372036854775807", "9223372036854775808", "1000000000000000000000000000000", "9999999999", "18446744073709551615", "18446744073709551616", "+3", "03", " 3", "3 ", "", "-", "+", "1e3", "576460752303423488"];
+        let tails: [&[u8]; 6] = [b"", b"abc\r\n", b"abc", b"$3\r\nfoo\r\n:1\r\n", b"\r\n", b"_\r\n_\r\n_\r\n"];
+        for l in lens.iter() {
+            for t in tails.iter() {
+                for ty in [b'$', b'*'] {
+                    let mut v = vec![ty]; v.extend_from_slice(l.as_bytes()); v.extend_from_slice(b"\r\n"); v.extend_from_slice(t);
+                    inputs.push(v.clone());
+                    let mut w = b"*2\r\n:7\r\n".to_vec(); w.extend_from_slice(&v); inputs.push(w);
+                    let mut w = b"*1\r\n*1\r\n".to_vec(); w.extend_from_slice(&v); inputs.push(w);
+                }
+            }
+        }
+        // nesting
+        let depths: Vec<usize> = if args.thorough() { vec![9, 100, 127, 128, 129, 130, 1000, 5000, 20000, 100000, 200000] } else { vec![9, 100, 127, 128, 129, 130, 1000, 20000] };
+        for d in depths {
+            for hdr in [&b"*1\r\n"[..], &b"*2\r\n"[..]] {
+                let mut v: Vec<u8> = hdr.iter().cycle().take(hdr.len() * d).cloned().collect();
+                inputs.push(v.clone());
+                v.extend_from_slice(b":1\r\n"); inputs.push(v);
+            }
+        }
+        // big flat arrays and token-heavy inline lines (allocation ratio)
+        for n in [1usize, 4, 5, 100, 3000] {
+            let mut v = format!("*{}\r\n", n).into_bytes();
+            for _ in 0..n { v.extend_from_slice(b"_\r\n"); }
+            inputs.push(v.clone());
+            v.truncate(v.len() - 1); inputs.push(v);
+            let mut v = format!("*{}\r\n", n).into_bytes();
+            for _ in 0..n { v.extend_from_slice(b"a\r\n"); }
+            inputs.push(v);
+            let mut v = format!("*{}\r\n", n).into_bytes();
+            for _ in 0..n { v.extend_from_slice(b"*0\r\n"); }
+            inputs.push(v);
+            let mut v: Vec<u8> = vec![];
+            for _ in 0..n { v.extend_from_slice(b"a "); }
+            inputs.push(v.clone()); v.extend_from_slice(b"\r\n"); inputs.push(v);
+            let mut v: Vec<u8> = b"\"".to_vec();
+            for _ in 0..n { v.extend_from_slice(b"\\n"); }
+            v.extend_from_slice(b"\r\n"); inputs.push(v);
+        }
+        // 128 levels each announcing a huge array, then a long line: nothing may be reserved per level
+        {
+            let mut v = vec![];
+            for _ in 0..128 { v.extend_from_slice(b"*349000\r\n"); }
+            v.extend(std::iter::repeat(b'a').take(if args.thorough() { 16000 } else { 4000 }));
+            inputs.push(v);
+        }
+        // random bytes and random mutations of frames
+        let n_rand = if args.thorough() { 200_000 } else { 12_000 };
+        for _ in 0..n_rand {
+            let n = rng.usize(40);
+            let v: Vec<u8> = match rng.usize(3) {
+                0 => (0..n).map(|_| rng.below(256) as u8).collect(),
+                1 => (0..n).map(|_| *rng.pick(b"+-:$*_0123456789\r\n\r\n a\"\\\xff\xc3\xa9")).collect(),
+                _ => {
+                    let mut s = b"*3\r\n$3\r\nfoo\r\n:12\r\n*1\r\n+ok\r\n".to_vec();
+                    for _ in 0..1 + rng.usize(3) {
+                        let i = rng.usize(s.len());
+                        match rng.usize(3) { 0 => s[i] = *rng.pick(b"-9$*\r\n\xff\""), 1 => { s.remove(i); } _ => s.insert(i, *rng.pick(b"-9$*\r\n1")) }
+                        if s.is_empty() { s.push(b'$'); }
+                    }
+                    s
+                }
+            };
+            inputs.push(v);
+        }
+    }
+
+    // observe the implementation (child processes), ask the model and the specification
+    let obs = observe(&inputs, &mut rep);
+    let mut lines = Vec::with_capacity(inputs.len() * 2);
+    for (inp, o) in inputs.iter().zip(obs.iter()) {
+        lines.push(format!("dec {}", hexd(inp)));
+        let cls = if o.class == 'A' { 'P' } else { o.class };
+        lines.push(format!("spec21 {} {} {}", cls, if o.peak == u64::MAX { "18446744073709551615".to_string() } else { o.peak.to_string() }, inp.len()));
+    }
+    let replies = driver::par_batch(&exe, &lines, 12);
+    let mut first_break: Option<(String, String)> = None;
+    let mut mismatches = 0u64;
+    let mut max_ratio_x100 = 0u64;
+    let mut max_ratio_input = String::new();
+    let mut max_over_model: i64 = i64::MIN;
+    for (k, inp) in inputs.iter().enumerate() {
+        let o = &obs[k];
+        let m = &replies[2 * k];
+        let sp = &replies[2 * k + 1];
+        let mf: Vec<&str> = m.split(' ').collect(); // ok <class> <val> <rest> <meter> <depth>
+        let m_depth: u64 = mf.get(5).and_then(|x| x.parse().ok()).unwrap_or(0);
+        let m_meter: u64 = mf.get(4).and_then(|x| x.parse().ok()).unwrap_or(0);
+        let bad = bad_length_field(inp);
+        let nt = bad.is_some() || nest_depth(inp) > 8 || m_depth > 8;
+        let short = if inp.len() > 60 { format!("{}..({} bytes)", hex0(&inp[..24]), inp.len()) } else { hexd(inp) };
+        rep.case(&hexd(inp), nt);
+        rep.count(&format!("outcome:{}", match o.class { 'V' => "value", 'M' => "need-more", 'X' => "protocol-error", 'P' => "panic", 'A' => "process-died", _ => "?" }));
+        if let Some(b) = bad { rep.count(&format!("length-field:{}", b)); }
+        if nt && rep.samples.len() < 5 && inp.len() < 40 {
+            rep.sample(json!({"input": String::from_utf8_lossy(inp), "impl_class": o.class.to_string(), "impl_peak_bytes": o.peak, "model": m}));
+        }
+        if o.peak != u64::MAX && !inp.is_empty() {
+            let r = o.peak * 100 / inp.len() as u64;
+            if r > max_ratio_x100 { max_ratio_x100 = r; max_ratio_input = short.clone(); }
+            max_over_model = max_over_model.max(o.peak as i64 - m_meter as i64);
+        }
+        let replay_line = if inp.len() > 4000 && nest_depth(inp) > 100 && inp.len() % 4 == 0 && inp.chunks(4).all(|c| c == &inp[..4]) {
+            format!("nest {} {}", inp.len() / 4, hex0(&inp[..4]))
+        } else { format!("bytes {}", hexd(inp)) };
+        let body = format!("{}\n# input  {}\n# impl   class={} peak={} rest={} value={}\n# model  {}\n# spec   {}", replay_line, short, o.class,
+            if o.peak == u64::MAX { "n/a".to_string() } else { o.peak.to_string() }, if o.rest.len() > 200 { format!("{}..", &o.rest[..200]) } else { o.rest.clone() }, if o.val.len() > 200 { "…" } else { &o.val },
+            if m.len() > 300 { &m[..300] } else { m }, sp);
+        if sp != "ok" {
+            let sig = if o.class == 'P' || o.class == 'A' {
+                let shape = if nest_depth(inp) > 128 { "deep-nesting" } else { bad.unwrap_or("other-input") };
+                format!("{}:{}", if o.class == 'P' { "panic" } else { "process-died" }, shape)
+            } else { "alloc-bound".to_string() };
+            rep.count(&format!("spec_violation:{}", sig));
+            rep.spec_violation(&known, &sig, &format!("decoder outcome class {} (P = panic, A = process died), peak allocation {} bytes for {} input bytes",
+                o.class, if o.peak == u64::MAX { "n/a".to_string() } else { o.peak.to_string() }, inp.len()), &body);
+            continue;
+        }
+        // R = M: outcome class, value, remaining buffer; and the model's meter covers the measured peak
+        let same = mf.len() >= 6 && mf[1] == o.class.to_string() && mf[2] == o.val && mf[3] == o.rest;
+        let meter_ok = o.peak <= m_meter + 256;
+        if !same || !meter_ok {
+            rep.count(if !same { "model_mismatch" } else { "model_meter_below_measured_peak" });
+            mismatches += 1;
+            if first_break.is_none() {
+                first_break = Some((if !same { "SgModel.Resp.decode = RespValue::decode (outcome, value, remaining buffer)".into() } else { "SgModel.Resp.decode meter >= measured peak allocation - 256".into() }, body));
+            }
+        }
+    }
+    rep.extra.insert("max_peak_bytes_per_input_byte_x100".into(), json!(max_ratio_x100));
+    rep.extra.insert("max_peak_ratio_input".into(), json!(max_ratio_input));
+    rep.extra.insert("max_measured_peak_minus_model_meter".into(), json!(max_over_model));
+    rep.notes.push("stack exhaustion and allocator aborts are process-level effects: observed as the death of the child process, not modelled in Lean (the model proves depth <= 128 and the allocation meter bound)".into());
+    if let Some((name, body)) = first_break {
+        if rep.spec_violations.is_empty() {
+            rep.correspondence_break(&name, &format!("model and implementation disagree on {} cases while the specification holds on all explored cases", mismatches), &body);
+        }
+    }
+    rep.write(&args.out);
 }
